@@ -6,8 +6,8 @@ import time
 
 VERIF = os.path.dirname(os.path.dirname(os.path.abspath(__file__)))
 KNOWN_FILE = os.path.join(VERIF, "known_findings.json")
-EVIDENCE_DIR = os.path.join(VERIF, "evidence")
-OUT_DIR = os.path.join(VERIF, "out")
+EVIDENCE_DIR = os.environ.get("GCVERIF_EVIDENCE_DIR") or os.path.join(VERIF, "evidence")
+OUT_DIR = os.environ.get("GCVERIF_OUT_DIR") or os.path.join(VERIF, "out")
 
 
 class Finding:
